@@ -1,7 +1,7 @@
 (* C17 -- proofs about the GENERATED chains (coq/gen/C17_Chain.v) *)
 From Coq Require Import List ZArith Bool Lia String.
 Import ListNotations.
-Require Import V.C17.Model V.C17.Proofs V.C17.Proofs2 V.gen.C17_Chain.
+Require Import V.C17.Model V.C17.Proofs V.C17.Proofs2 V.C17.Proofs3 V.C17.Proofs4 V.gen.C17_Chain.
 Open Scope Z_scope.
 
 Lemma sources_ok : gen_sources = expected_sources /\ gen_points = expected_points.
@@ -111,3 +111,60 @@ Proof.
     + unfold upletters. rewrite map_length. exact L2.
     + unfold upletters. rewrite map_length. exact Hlen.
 Qed.
+
+(* ------------------------------------------------------------------ deepening: decimal points, lat/lon, float texts *)
+Lemma point_dec_proof : forall c k cs, In c point_chains -> Forall numtext cs ->
+  List.length cs = List.length (letters k) ->
+  conv (chain_of c) (render_t cs (letters k)) = Ok (VPoint k cs) /\
+  conv (chain_of c) (render_t cs (upletters k)) = Ok (VPoint k cs).
+Proof.
+  intros c k cs Hc Hcs Hlen.
+  assert (H : forallb (fun c => forallb (point_ok c) all_kinds) point_chains = true) by (vm_compute; reflexivity).
+  rewrite forallb_forall in H. specialize (H _ Hc). rewrite forallb_forall in H.
+  specialize (H k (all_kinds_in k)). unfold point_ok in H.
+  repeat (apply andb_true_iff in H as [H ?]).
+  assert (Hne : cs <> []) by (intros ->; apply Z.leb_le in H0; cbn in Hlen; lia).
+  split.
+  - apply point_chain_sound_t; assumption.
+  - apply point_chain_sound_t; try assumption.
+    unfold upletters. rewrite map_length. exact Hlen.
+Qed.
+
+Definition latlon_chains : list cid :=
+  [CCoordNum; CBoolCoordNum; CStrBoolCoordNum; CCoordPointNum; CBoolCoordPointNum;
+   CPathCoordPointNum; CBoolPathCoordPointNum; CStrBoolPathCoordPointNum].
+
+Lemma latlon_proof : forall c deg h m1 m2, In c latlon_chains ->
+  digits deg -> digits m1 -> digits m2 ->
+  (memZ h ne_class = true ->
+     conv (chain_of c) (latlon_text deg h m1 m2) = Ok (VLatLon false deg (m1 ++ 46 :: m2))) /\
+  (memZ h ne_class = false -> memZ h sw_class = true ->
+     conv (chain_of c) (latlon_text deg h m1 m2) = Ok (VLatLon true deg (m1 ++ 46 :: m2))).
+Proof.
+  intros c deg h m1 m2 Hc. apply latlon_chain_sound.
+  assert (H : forallb (fun c => latlon_chain_ok (chain_of c)) latlon_chains = true) by (vm_compute; reflexivity).
+  rewrite forallb_forall in H. now apply H.
+Qed.
+
+Lemma float_text_proof : forall c t, c <> CStripQuotes -> float_shape t = true ->
+  conv (chain_of c) t = Ok (VFloatText t).
+Proof.
+  intros c t Hc. apply float_chain_sound.
+  destruct c; try (vm_compute; reflexivity). congruence.
+Qed.
+
+Section FloatOracle.
+  Variable F : Type.
+  Variable float_of_text : list Z -> option F.     (* CPython float(text) *)
+  Variable repr : F -> list Z.                     (* CPython repr(x) *)
+  Variable finite : F -> Prop.
+  Hypothesis repr_inverse : forall x, finite x -> float_of_text (repr x) = Some x.
+  Hypothesis repr_shape : forall x, finite x -> float_shape (repr x) = true.
+
+  Lemma float_roundtrip_proof : forall c x, c <> CStripQuotes -> finite x ->
+    conv_f float_of_text (chain_of c) (repr x) = OkFloat x.
+  Proof.
+    intros c x Hc Hx. unfold conv_f.
+    rewrite (float_text_proof c (repr x) Hc (repr_shape x Hx)). now rewrite (repr_inverse x Hx).
+  Qed.
+End FloatOracle.
